@@ -901,6 +901,8 @@ def oracle_c09(sc, res):
                                   f"service {ident} failed with no onError but status is {fin['status']}"))
             continue
         if handlers and any(const_true_guard(sc, h.guard) for h in handlers):
+            if has_log(w, "Discarding") or has_log(w, "chained self-raised"):
+                continue  # a self-feeding chain was cut at maxIterations (C13): the cut event may be this completion
             if handled.get((node.id, a.idx, inv["id"]), 0) == 0:
                 vios.append(Violation("C09", "completion-never-handled",
                                       {"engine": sc["engine"], "preempted": bool(res.meta.get("preempts_done")),
@@ -1027,9 +1029,9 @@ def oracle_c10(sc, res):
                     strict_eq = True
                     vios.append(Violation("C10", "ondone-more-than-completions", {"engine": sc["engine"], "kind": A.kind},
                                           f"onDone of {A.id} taken {firings[A.id]} times but it completed only {instants[A.id]} times"))
-                if A.kind == "parallel" and st is not None and not st[0]:
-                    vios.append(Violation("C10", "parallel-ondone-while-region-not-final", {"engine": sc["engine"]},
-                                          f"onDone {t.tid} of parallel {A.id} taken while a region is not final (cfg when {t.event} was received: {st[1]})"))
+                # "never while any region is not final" is judged at the completion instant (a firing needs an
+                # instant at which every region was final: firings <= instants above); by the time the queued
+                # done event is taken an earlier queued event may legitimately have moved a region on.
         elif k == "obs" and r[5] == root:
             o = r[6]
             if o["status"] != "running":
@@ -1040,6 +1042,8 @@ def oracle_c10(sc, res):
                 if not const_true_guard(sc, n.on_done.guard):
                     continue
                 still_done = m.is_done(n, set(o["cfg"])) and (n.kind == "compound" or m.strict_done(n, set(o["cfg"])))
+                if has_log(w, "Discarding") or has_log(w, "chained self-raised"):
+                    continue  # a self-feeding chain was cut at maxIterations (C13): the cut event may be this done event
                 if still_done and instants[n.id] > firings[n.id]:
                     reported.add(("missing", n.id))
                     vios.append(Violation(
